@@ -1,5 +1,6 @@
 import BlobfinderModel.Properties.C02
 import BlobfinderModel.Gen.Eval
+import BlobfinderModel.Gen.Blocks
 /-!
 # C02 — wiring: text of the current source pinned for code that is glue between library calls
 (kept apart from the property theorems so that a module importing `Properties.C02` does not depend on these pins)
@@ -11,5 +12,12 @@ namespace C02
 theorem text_pins_wrappers :
     Gen.fast_wrapper_body = "crop_size = pattern.get_crop_size() ; template = pattern.get_template(sig_shape=(2 * crop_size, 2 * crop_size)) ; centers = np.zeros((len(frames), len(peaks), 2), dtype=np.int16) ; refineds = np.zeros((len(frames), len(peaks), 2), dtype=np.float32) ; heights = np.zeros((len(frames), len(peaks)), dtype=np.float32) ; elevations = np.zeros((len(frames), len(peaks)), dtype=np.float32) ; crop_bufs = correlation.allocate_crop_bufs(crop_size, len(peaks), np.result_type(frames.dtype, np.float32)) ; for i, f in enumerate(frames): correlation.process_frame_fast(template=template, crop_size=crop_size, frame=f, peaks=peaks.astype(np.int32), out_centers=centers[i], out_refineds=refineds[i], out_heights=heights[i], out_elevations=elevations[i], crop_bufs=crop_bufs, upsample=upsample) ; return (centers, refineds, heights, elevations)" ∧
     Gen.full_wrapper_body = "crop_size = pattern.get_crop_size() ; template = pattern.get_template(sig_shape=frames[0].shape) ; centers = np.zeros((len(frames), len(peaks), 2), dtype=np.int16) ; refineds = np.zeros((len(frames), len(peaks), 2), dtype=np.float32) ; heights = np.zeros((len(frames), len(peaks)), dtype=np.float32) ; elevations = np.zeros((len(frames), len(peaks)), dtype=np.float32) ; frame_buf = correlation.zeros(frames[0].shape, dtype=np.float32) ; buf_count = correlation.get_buf_count(crop_size, len(peaks), frame_buf.dtype) ; for i, f in enumerate(frames): correlation.process_frame_full(template=template, crop_size=crop_size, frame=f, peaks=peaks.astype(np.int32), out_centers=centers[i], out_refineds=refineds[i], out_heights=heights[i], out_elevations=elevations[i], frame_buf=frame_buf, buf_count=buf_count, upsample=upsample) ; return (centers, refineds, heights, elevations)" := ⟨rfl, rfl⟩
+
+/-- when the upsampled refinement runs: `upsample=True` stands for the factor 20 in both pipelines, and the refinement is
+switched on by any factor above 1 -- the accuracy clause `1/upsample + 0.03` is about exactly those calls -/
+theorem upsample_switch :
+    (∀ u : ℤ, Gen.fast_upsample_on u = true ↔ 1 < u) ∧ Gen.fast_upsample_default = 20
+    ∧ (∀ u : ℤ, Gen.full_upsample_on u = true ↔ 1 < u) ∧ Gen.full_upsample_default = 20 := by
+  refine ⟨?_, rfl, ?_, rfl⟩ <;> intro u <;> simp [Gen.fast_upsample_on, Gen.full_upsample_on]
 
 end C02
